@@ -15,16 +15,17 @@ import (
 	"verif/gen"
 	"verif/obs"
 	"verif/pbt"
+	"verif/wire"
 )
 
 func TestMain(m *testing.M) { pbt.Main(m) }
 
 // A small pool forces repeats; the empty string is part of it.
-var pool = []string{"Q101Z alpha", "Q102Z beta\nsecond line", "Q103Z: gamma", "Q104Z", "", "Q101Z alpha\n", " Q101Z alpha", " ", "\n"}
+var pool = []string{"Q101Z alpha", "Q102Z beta\nsecond line", "Q103Z: gamma", "Q104Z", "", "Q101Z alpha\n", " Q101Z alpha", " ", "\n", "Q105Z 100%", "%d%%"}
 
 func poolStr(t *rapid.T, label string) string { return rapid.SampledFrom(pool).Draw(t, label) }
 
-var annot = []string{"hint", "detail", "issuelink", "telemetry", "tags", "assertion", "uhinter", "domain", "httpcode"}
+var annot = []string{"hint", "detail", "hintf0", "detailf0", "issuelink", "telemetry", "tags", "assertion", "uhinter", "domain", "httpcode"}
 
 func draw(t *rapid.T) *pbt.Case {
 	maxL := 8
@@ -72,11 +73,20 @@ func draw(t *rapid.T) *pbt.Case {
 		}
 		s = w
 	}
-	return &pbt.Case{Spec: s}
+	c := &pbt.Case{Spec: s}
+	// Annotations survive transfer (C11), so the same lists are expected
+	// after a hop - except what an unregistered user type contributes.
+	if !s.Has("uhinter") {
+		c.SetInt("hops", rapid.IntRange(0, 1).Draw(t, "hops"))
+	}
+	return c
 }
 
 func check(c *pbt.Case, r *pbt.R) {
 	e := gen.Build(c.Spec)
+	if c.Int("hops") > 0 && !c.Spec.Has("uhinter") {
+		e = wire.Hops(e, c.Int("hops"))
+	}
 	ls := gen.Chain(c.Spec)
 	// Model: innermost to outermost.
 	var hints, details []string
@@ -154,6 +164,7 @@ func check(c *pbt.Case, r *pbt.R) {
 		r.NonTrivial()
 	}
 	r.St.CountN("model layers", len(ls))
+	r.St.CountN("hops", c.Int("hops"))
 	r.St.CountN("repeated hints", repeats)
 	r.St.CountN("empty hints/details", empties)
 	r.St.CountN("hints", len(hints))
